@@ -107,9 +107,10 @@ def parse_vspec(path):
             target = cur.loops.setdefault(int(m.group(1)), LoopSpec())
             section = None
             continue
-        if line == "at end":
+        m = re.match(r'^at\s+end(?:\s+\[([A-Za-z0-9_.\-]+)\])?$', line)
+        if m:
             # proof hint placed before the closing brace of the function body (bodies ending in a statement only)
-            a = AtSpec(None, 1, "end")
+            a = AtSpec(None, 1, "end", label=m.group(1) or "")
             cur.ats.append(a)
             section = ("at", a)
             continue
@@ -335,7 +336,8 @@ class Unit:
                 # vacuity twin: same requires, same body, `ensures false` only; must FAIL to verify
                 self._emit_fn(g, sp, default_crate, True)
         p = os.path.join(self.dir, "lemmas.rs")
-        if os.path.exists(p) and not smoke:
+        if os.path.exists(p) and (not smoke or self.cfg.get("unit", {}).get("smoke_lemmas", False)):
+            # smoke_lemmas = true: proof hints of this unit call lemmas, so the smoke file needs them too
             self._emit_file(g, p, "lemma")
         g.emit("} // verus!", kind="gen")
         g.emit("fn main() {}", kind="gen")
@@ -389,7 +391,7 @@ class Unit:
         for a in sp.ats:
             if a.where == "end":
                 le = text.rstrip().rfind("}")
-                text = text[:le] + "\n".join(a.text) + "\n" + text[le:]
+                text = text[:le].rstrip(" ") + "\n".join(f"{tl} /*@hint:{a.label}@*/" for tl in a.text) + "\n" + text[le:]
                 continue
             pos = -1
             start = 0
